@@ -199,10 +199,19 @@ func DecryptKey(keyjson []byte, auth string) (*Key, error) {
 		return nil, err
 	}
 	key := crypto.ToECDSAUnsafe(keyBytes)
+	address := crypto.PubkeyToAddress(key.PubKey())
+	// The MAC covers the ciphertext only: a modified IV (or cipher parameter)
+	// decrypts to a different key without failing it. If the file records the
+	// account address, the decrypted key must be the key of that address.
+	if want, ok := m["address"].(string); ok && want != "" {
+		if common.HexToAddress(want) != address {
+			return nil, ErrDecrypt
+		}
+	}
 
 	return &Key{
 		Id:         uuid.UUID(keyId),
-		Address:    crypto.PubkeyToAddress(key.PubKey()),
+		Address:    address,
 		PrivateKey: key,
 	}, nil
 }
